@@ -29,7 +29,7 @@ func init() {
 	core.Register(&core.Check{
 		ID:    "C19",
 		Level: "model_checking",
-		Rule: "all histories of <=1 (thorough <=2) earlier programs followed by a program under test over an alphabet of 51 programs (incl. pairs that raise the same run-time error from different source positions, and programs that invite!/import the embedded and Go standard modules after defining variables) (define a variable, read it, shadow a built-in name, use a built-in, raise `_` on different lines, touch Either's abstract props, raise at depth 2, syntax error, intern new symbols via evalEnv, print, read stdin, iterate, user error, error inside native code, inspect built-in prototypes), " +
+		Rule: "all histories of <=1 (thorough <=2) earlier programs followed by a program under test over an alphabet of 56 programs (incl. pairs that raise the same run-time error from different source positions, and programs that invite!/import the embedded and Go standard modules after defining variables) (define a variable, read it, shadow a built-in name, use a built-in, raise `_` on different lines, touch Either's abstract props, raise at depth 2, syntax error, intern new symbols via evalEnv, print, read stdin, iterate, user error, error inside native code, inspect built-in prototypes), " +
 			"each history in a new process, under 2 reuse drivers (playground: one const env, one enclosed scope per program - the call sequence of web/wasm/executor.go; `pangaea test`: runscript.RunTest over a generated directory); " +
 			"oracle: (stdout, value, error message, stack trace) of the program under test equals its observation alone in a new process; states = histories, transitions = program evaluations; " +
 			"non-trivial = every history of length >=1; distinct = distinct (driver, history, program)",
@@ -108,6 +108,13 @@ var alphabet = []prog{
 	// program receives that name from the interpreter (evalEnv keys) and looks at more than its text
 	{Name: "descendant-str-as-first-use-of-a-name", Src: "MyStr := Str.bear({shout: m{\"from the earlier program\"}})\nk := MyStr.new(\"zz_c19_fresh_name\")\nw := MyStr.new(\"zz_c19_which_name\")\n[%{k: 1}.len, %{}[k], {a: 1}.which(w)]"},
 	{Name: "names-handed-out-by-evalEnv", Src: "ks := \"zz_c19_fresh_name := 1; zz_c19_which_name := 2\".evalEnv.keys\nks@{|k| [k, k.proto == Str, k['shout], k.kindOf?(Str)]}"},
+	// names that standard modules define, read by a program that loaded none (alone: all undefined)
+	{Name: "read-module-names", Src: "[1.try.{|u| message}.err?, 1.try.{|u| Server}.err?, 1.try.{|u| Client}.err?, 1.try.{|u| S}.err?, 1.try.{|u| _internal}.err?]"},
+	{Name: "invite-http-module", Src: "invite!(\"http\")\n[Server.kindOf?(Obj), Client.kindOf?(Obj)]"},
+	// function literals that end on the same line and column with the same closing line, printed and compared
+	{Name: "print-multiline-func-v1", Src: "f := {|x|\n  x + 1\n}\ne := {|x|\n  x + 1\n}\n[f.S, f == e, f(1)]"},
+	{Name: "print-multiline-func-v2", Src: "g := {|y|\n  y * 2\n}\ne := {|y|\n  y * 2\n}\n[g.S, g == e, g(1)]"},
+	{Name: "print-multiline-iter-v3", Src: "h := <{|n|\n  yield n\n}>\n[h.S, h.new(3).next]"},
 	{Name: "bear-patch-builtins", Src: "c := Int.bear({extra: 1})\nd := {a: 1}.patch(b: 2)\n[c['extra], Int['extra], d, Obj['b]]"},
 }
 
